@@ -32,7 +32,7 @@ NotTime == SV("notSessionTime")
 IsLoggedOn(v) == v.n \in {"inSession", "resend"}
 IsConnected(v) == v.n \in {"inSession", "resend", "logon", "logout"}
 IsSessionTime(v) == v.n # "notSessionTime"
-\* `switch session.State.(type) { case resendState:' is true only for the bare value (Q-H)
+\* `switch session.State.(type) { case resendState:' is true only for the bare value 
 IsBareResend(v) == v.n = "resend" /\ ~v.p
 
 StashKeys(v) == DOMAIN v.stash
@@ -142,7 +142,7 @@ SendRR(s, begin, end) ==
     LET chunkEnd == IF s.cfg.chunk # 0 THEN begin + s.cfg.chunk - 1 ELSE end
         cur == IF chunkEnd < end THEN chunkEnd ELSE 0
         wireEnd == IF chunkEnd < end THEN chunkEnd ELSE InfEnd(s.cfg)
-        v == [SV("resend") EXCEPT !.rrEnd = end, !.rrCur = cur]
+        v == [SV("resend") EXCEPT !.rrEnd = end, !.rrCur = cur, !.alloc = TRUE]   \* stash map allocated here
     IN [s |-> SendReply(s, Out("2", begin, wireEnd, 0, "")), v |-> v]
 
 \* ---------------------------------------------------------------- rejects
@@ -185,8 +185,12 @@ IsAdminType(t) == t \in {"A", "5", "0", "1", "2", "3", "4"}
 
 \* verifyMsgAgainstAppImpl: validator, then FromAdmin/FromApp and whatever it answers
 \* returns [s, rej]
+\* (without a dictionary the validator still refuses a field without a value, in wire order)
 VerifyApp(s, m) ==
-    IF m.val = "bad" THEN [s |-> s, rej |-> Rej(4, 58)]
+    IF m.cid = "emptysender" THEN [s |-> s, rej |-> Rej(4, 49)]
+    ELSE IF m.cid = "emptytarget" THEN [s |-> s, rej |-> Rej(4, 56)]
+    ELSE IF m.seqc = "empty" THEN [s |-> s, rej |-> Rej(4, 34)]
+    ELSE IF m.val = "bad" THEN [s |-> s, rej |-> Rej(4, 58)]
     ELSE LET s1 == [s EXCEPT !.cb = Append(@, Cb(IF IsAdminType(m.t) THEN "FromAdmin" ELSE "FromApp",
                                                    IF IsAdminType(m.t) THEN m.t ELSE "D",
                                                    IF m.seqc = "ok" THEN m.seq ELSE 0, s.nIn))]
@@ -200,7 +204,7 @@ VerifyApp(s, m) ==
 VerifySelect(s, m, high, low, app) ==
     LET r1 == CheckBeginString(s, m)
         r2 == CheckCompID(s, m)
-        r3 == IF IsBareResend(s.cur) THEN NoRej ELSE CheckSendingTime(s, m)     \* Q-H: wrapped resend does check
+        r3 == IF IsBareResend(s.cur) THEN NoRej ELSE CheckSendingTime(s, m)     
         r4 == IF low THEN CheckTooLow(s, m) ELSE NoRej
         r5 == IF high THEN CheckTooHigh(s, m) ELSE NoRej
     IN CASE r1.k # "ok" -> [s |-> s, rej |-> r1]
@@ -234,7 +238,7 @@ ProcessReject(s, m, rej) ==
     CASE rej.k = "tooHigh" ->
             IF IsBareResend(s.cur)
             THEN Ret(s, WithStash(s.cur, m.seq, m))               \* already recovering: keep it
-            ELSE LET r == SendRR(s, s.nIn, m.seq - 1)             \* Q-H: also under pending(resend)
+            ELSE LET r == SendRR(s, s.nIn, m.seq - 1)             
                  IN Ret(r.s, WithStash(r.v, m.seq, m))
       [] rej.k = "tooLow" -> DoTargetTooLow(s, m)
       [] rej.k = "wrongBS" -> Ret(InitiateLogout(s, TRUE), LogoutSt)
@@ -291,7 +295,7 @@ ResendLoop(s, ks, i, cur, nxt) ==
                          IN ResendLoop(EnqueueRaw(s2, rp), ks, i + 1, n + 1, n + 1)
 
 ResendMessages(s, b, e) ==
-    IF ~s.cfg.persist THEN SendGapFill(s, b, e + 1)                 \* Q-K when b > e
+    IF ~s.cfg.persist THEN (IF b > e THEN s ELSE SendGapFill(s, b, e + 1))
     ELSE LET ks == SetToSortSeq({n \in DOMAIN s.sent : b <= n /\ n <= e}, LAMBDA x, y : x < y)
          IN ResendLoop(s, ks, 1, b, b)
 
@@ -394,9 +398,11 @@ LogonIn(s, m) ==
 
 \* State.FixMsgIn with the pendingTimeout wrapper: the embedded state handles the message and
 \* whatever it returns replaces the wrapper
-FixMsgIn(s, m) ==
+\* (pendingTimeout.FixMsgIn makes the wrapped state current before it handles the message)
+FixMsgIn(s0, m) ==
+    LET s == [s0 EXCEPT !.cur.p = FALSE] IN
     CASE s.cur.n = "inSession" -> InSessionIn(s, m)
-      [] s.cur.n = "resend"    -> ResendIn(s, [s.cur EXCEPT !.p = FALSE], m)
+      [] s.cur.n = "resend"    -> ResendIn(s, s.cur, m)
       [] s.cur.n = "logon"     -> LogonIn(s, m)
       [] s.cur.n = "logout"    -> LogoutIn(s, m)
       [] OTHER                 -> Ret(s, s.cur)
@@ -515,6 +521,8 @@ SentList(s) ==
 
 Post(s) == [st |-> StateName(s.cur), nIn |-> s.nIn, nOut |-> s.nOut,
             stash |-> SetToSortSeq(StashKeys(s.cur), LAMBDA x, y : x < y),
+            stasht |-> LET ks == SetToSortSeq(StashKeys(s.cur), LAMBDA x, y : x < y) IN
+                       [i \in 1..Len(ks) |-> IF IsAdminType(s.cur.stash[ks[i]].t) THEN s.cur.stash[ks[i]].t ELSE "D"],
             rrEnd |-> s.cur.rrEnd, rrCur |-> s.cur.rrCur, q |-> Len(s.q),
             sentReset |-> s.sentReset, conn |-> s.conn, hb |-> s.hb,
             pstop |-> s.pstop, stopped |-> s.stopped, ep |-> s.ct,
